@@ -3,6 +3,8 @@
 ID=$1; P=$2; T=${3:-quick}
 cd /repo && git diff --quiet || { echo "/repo dirty"; exit 2; }
 git apply "$P" || { echo "patch does not apply"; exit 2; }
+cp /verif/evidence/$ID.json /tmp/try_seed_$ID.evidence.bak 2>/dev/null
 cd /verif && ./check $ID --tier $T > /tmp/try_seed_$ID.out 2>/tmp/try_seed_$ID.err; RC=$?
+cp /tmp/try_seed_$ID.evidence.bak /verif/evidence/$ID.json 2>/dev/null   # a seeded run is not evidence
 cd /repo && git checkout -- . && cd /verif
 echo "exit=$RC"; grep -c VIOLATION /tmp/try_seed_$ID.out; grep VIOLATION /tmp/try_seed_$ID.out | head -3; grep -v "^Closed" /tmp/try_seed_$ID.out | grep -v VIOLATION | tail -3
